@@ -4,6 +4,7 @@ set -e -o pipefail
 cd "$(dirname "$0")"
 mkdir -p work evidence replays
 /venv/bin/python tools/translate.py
+/venv/bin/python tools/translate_code.py
 cd lean
 lake build 2>&1 | grep -v '^trace' | tail -n 40
 test -x .lake/build/bin/driver
